@@ -64,7 +64,15 @@ type cfgCase struct {
 	COrigins      []originArg `json:"cors_origins"`
 	Cookie        *string     `json:"cookie_name"`
 	Compat        *string     `json:"protocol_version_compatibility"`
-	Transport     string      `json:"transport"` // local | bolt | url | default
+	Transport     string      `json:"transport"` // local | bolt | url | default | both (directive + URL: the URL wins)
+	TPath         bool        `json:"transport_path_given"`
+	TBucket       *string     `json:"transport_bucket_name"`
+	TSize         *string     `json:"transport_size"`
+	TFreq         *string     `json:"transport_cleanup_frequency"`
+	UKind         string      `json:"transport_url_kind"` // local | bolt-abs | bolt-rel | bolt-nopath | unknown
+	USize         *string     `json:"transport_url_size"`
+	UFreq         *string     `json:"transport_url_cleanup_frequency"`
+	UBucket       *string     `json:"transport_url_bucket_name"`
 	Junk          bool        `json:"misspelt_directive"`
 	ViaJSON       bool        `json:"via_json"`
 	Placeholders  int         `json:"placeholders"` // bit 0: HMAC key via {env.…}; bits 1,2: absent publisher / subscriber key written as a placeholder resolving to ""
@@ -139,12 +147,29 @@ func (cs cfgCase) caddyfile(dir string) string {
 		ds = append(ds, "protocol_version_compatibility "+*cs.Compat)
 	}
 	switch cs.Transport {
-	case "local":
+	case "local", "both":
 		ds = append(ds, "transport local")
 	case "bolt":
-		ds = append(ds, "transport bolt {\n\t\tpath "+quote(dir+"/c.db")+"\n\t}")
-	case "url":
-		ds = append(ds, "transport_url local://local")
+		var sub []string
+		if cs.TPath {
+			sub = append(sub, "path "+quote(dir+"/c.db"))
+		}
+		opt := func(name string, v *string) {
+			if v != nil {
+				sub = append(sub, name+" "+quote(*v))
+			}
+		}
+		opt("bucket_name", cs.TBucket)
+		opt("size", cs.TSize)
+		opt("cleanup_frequency", cs.TFreq)
+		if len(sub) == 0 {
+			ds = append(ds, "transport bolt")
+		} else {
+			ds = append(ds, "transport bolt {\n\t\t"+strings.Join(sub, "\n\t\t")+"\n\t}")
+		}
+	}
+	if cs.Transport == "url" || cs.Transport == "both" {
+		ds = append(ds, "transport_url "+quote(cs.transportURL(dir)))
 	}
 	if cs.Junk {
 		ds = append(ds, "anonymus")
@@ -165,6 +190,102 @@ func (cs cfgCase) caddyfile(dir string) string {
 	}
 
 	return "mercure {\n\t" + strings.Join(out, "\n\t") + "\n}"
+}
+
+func (cs cfgCase) transportURL(dir string) string {
+	q := url.Values{}
+	set := func(k string, v *string) {
+		if v != nil {
+			q.Set(k, *v)
+		}
+	}
+	set("size", cs.USize)
+	set("cleanup_frequency", cs.UFreq)
+	set("bucket_name", cs.UBucket)
+	base := ""
+	switch cs.UKind {
+	case "local":
+		return "local://local"
+	case "bolt-abs":
+		base = "bolt://" + dir + "/u.db"
+	case "bolt-rel":
+		base = "bolt://u.db"
+	case "bolt-nopath":
+		base = "bolt://"
+	default:
+		base = "redis://u.db"
+	}
+	if len(q) != 0 {
+		base += "?" + q.Encode()
+	}
+
+	return base
+}
+
+// jsonRoundTrip: what encoding/json makes of a size that caddyconfig.JSONModuleObject re-encodes through a
+// map[string]any (float64) — a library as a parameter of the model, consulted from 2^53 on.
+func jsonRoundTrip(n uint64) string {
+	b, _ := json.Marshal(map[string]any{"size": float64(n)})
+	var v struct {
+		Size uint64 `json:"size"`
+	}
+	if json.Unmarshal(b, &v) != nil {
+		return "err"
+	}
+
+	return strconv.FormatUint(v.Size, 10)
+}
+
+// floatWire: strconv.ParseFloat is a parameter of the model: the verdict and the value rendered canonically.
+func floatWire(s string) string {
+	f, err := strconv.ParseFloat(s, 64)
+	if err != nil {
+		return "0:"
+	}
+
+	return "1:" + h.Hex(strconv.FormatFloat(f, 'g', -1, 64))
+}
+
+// transportLine: what the configuration says about the transport, for the model.
+func (cs cfgCase) transportLine(dir string) string {
+	f := []string{"cfg.transport"}
+	switch cs.Transport {
+	case "local", "both":
+		f = append(f, "dir=local")
+	case "bolt":
+		f = append(f, "dir=bolt")
+		if cs.TPath {
+			f = append(f, "path="+h.Hex(dir+"/c.db"))
+		} else {
+			f = append(f, "path=-")
+		}
+		f = append(f, "bucket="+optHex(cs.TBucket), "size="+optHex(cs.TSize))
+		if cs.TSize != nil {
+			if n, err := strconv.ParseUint(*cs.TSize, 10, 64); err == nil && n >= 1<<53 {
+				f = append(f, "sizert="+jsonRoundTrip(n))
+			}
+		}
+		if cs.TFreq != nil {
+			f = append(f, "freq="+floatWire(*cs.TFreq))
+		} else {
+			f = append(f, "freq=-")
+		}
+	default:
+		f = append(f, "dir=none")
+	}
+	if cs.Transport == "url" || cs.Transport == "both" {
+		u, err := url.Parse(cs.transportURL(dir))
+		if err != nil {
+			panic(err)
+		}
+		q := u.Query()
+		f = append(f, "url=1", "scheme="+h.Hex(u.Scheme), "upath="+h.Hex(u.Path), "host="+h.Hex(u.Host), "usize="+h.Hex(q.Get("size")),
+			"ufreq="+h.Hex(q.Get("cleanup_frequency")), "ufreqarg="+floatWire(q.Get("cleanup_frequency")), "ubucket="+h.Hex(q.Get("bucket_name")))
+	} else {
+		f = append(f, "url=0")
+	}
+
+	return h.Line(f...)
 }
 
 func durMS(s string) (int, bool) {
@@ -202,13 +323,24 @@ type rw struct {
 	body   strings.Builder
 }
 
-func (w *rw) Header() http.Header         { return w.hdr }
-func (w *rw) WriteHeader(s int)           { if w.status == 0 { w.status = s } }
-func (w *rw) Write(p []byte) (int, error) { if w.status == 0 { w.status = 200 }; w.body.Write(p); return len(p), nil }
-func (w *rw) Flush()                      {}
+func (w *rw) Header() http.Header { return w.hdr }
+func (w *rw) WriteHeader(s int) {
+	if w.status == 0 {
+		w.status = s
+	}
+}
+func (w *rw) Write(p []byte) (int, error) {
+	if w.status == 0 {
+		w.status = 200
+	}
+	w.body.Write(p)
+	return len(p), nil
+}
+func (w *rw) Flush()                           {}
 func (w *rw) SetWriteDeadline(time.Time) error { return nil }
 
 func probe(hub *mercure.Hub, publisher bool, cands map[string]*jws.Key) string {
+	var accepted []string
 	for _, alg := range []string{"HS256", "HS384", "HS512", "RS256", "RS384", "RS512", "ES256", "EdDSA"} {
 		fam := alg[:2]
 		for class, k := range cands {
@@ -243,9 +375,17 @@ func probe(hub *mercure.Hub, publisher bool, cands map[string]*jws.Key) string {
 				fmt.Println("probe", publisher, alg, class, w.status, w.body.String())
 			}
 			if w.status == 200 {
-				return alg
+				accepted = append(accepted, alg)
+
+				break
 			}
 		}
+	}
+
+	// every algorithm the hub accepts for this role: exactly the configured one, or the configuration is
+	// not the one in effect
+	if len(accepted) > 0 {
+		return strings.Join(accepted, "+")
 	}
 
 	return "?"
@@ -269,14 +409,14 @@ func main() {
 	c := &h.Ctx{Seed: seed, Tier: tier, Rand: h.NewRand(seed)}
 	c.Driver = h.StartDriver()
 	r := h.NewReport("C19", "cfgcaddy", seed, tier)
-	r.Rule = "sets of `mercure` Caddyfile directives in random order through the real module in process (caddyfile dispenser -> UnmarshalCaddyfile -> Provision with a caddy context; a sample also through the JSON form): anonymous, subscriptions, write_timeout / dispatch_timeout / heartbeat in {unset, 0, valid, unparsable}, publisher_jwt / subscriber_jwt with key in {absent, a placeholder resolving to nothing, HMAC secret (literal or through an {env.…} placeholder), RSA / EC / Ed25519 public PEM} x algorithm in {unset, HS256, HS384, RS256, ES256, EdDSA, RS512, PS256, none, hs256}, publish_origins / cors_origins from a pool of valid and invalid origins, cookie_name, protocol_version_compatibility in {unset, 7, 6, 8, x}, transport in {default bolt, local, bolt{path}, transport_url}, a misspelt directive. The effective options are read back through a white-box accessor and the verification key/algorithm of each role is found by probing; compared with the model. Oracles on the implementation alone: a provisioned hub has a publisher key, and a subscriber key unless anonymous. JWKS URLs need the network: excluded. Non-trivial = configuration that gets past directive parsing; distinct by content."
+	r.Rule = "sets of `mercure` Caddyfile directives in random order through the real module in process (caddyfile dispenser -> UnmarshalCaddyfile -> Provision with a caddy context; a sample also through the JSON form): anonymous, subscriptions, write_timeout / dispatch_timeout / heartbeat in {unset, 0, valid, unparsable}, publisher_jwt / subscriber_jwt with key in {absent, a placeholder resolving to nothing, HMAC secret (literal or through an {env.…} placeholder), RSA / EC / Ed25519 public PEM} x algorithm in {unset, HS256, HS384, RS256, ES256, EdDSA, RS512, PS256, none, hs256}, publish_origins / cors_origins from a pool of valid and invalid origins, cookie_name, protocol_version_compatibility in {unset, 7, 6, 8, x}, transport in {none (bolt with defaults), `transport local`, `transport bolt { path? bucket_name? size? cleanup_frequency? }`, `transport_url` (local://, bolt:// absolute / relative / without path, unknown scheme; size / cleanup_frequency / bucket_name query parameters), directive and URL together} with sizes and frequencies from pools of well-formed and malformed arguments (leading zeros, 2^64-1, 2^64, signs, underscores, empty, exponent / hex floats); the transport in effect (kind, file, bucket, size, cleanup frequency) is read back, a misspelt directive. The effective options are read back through a white-box accessor and the verification key/algorithm of each role is found by probing; compared with the model. Oracles on the implementation alone: a provisioned hub has a publisher key, and a subscriber key unless anonymous. JWKS URLs need the network: excluded. Non-trivial = configuration that gets past directive parsing; distinct by content."
 	_, hk := key("text")
 	os.Setenv("VERIF_HMAC_KEY", hk)
 	os.Unsetenv("VERIF_UNSET_KEY")
 	dir, _ := os.MkdirTemp("", "vhc-")
 	defer os.RemoveAll(dir)
 	os.Chdir(dir) // the default bolt transport writes ./bolt.db
-	n := c.Scale(400, 20000)
+	n := c.Scale(1000, 20000)
 	algPool := []string{"HS256", "HS384", "RS256", "ES256", "EdDSA", "RS512", "PS256", "none", "hs256", ""}
 	classes := []string{"absent", "text", "text", "rsa", "ec", "ed"}
 	pickS := func(rr *h.Rand, pool []string, p, q int) *string {
@@ -321,10 +461,23 @@ func main() {
 		}
 		cs.Cookie = pickS(rr, []string{"myCookie", "mercureAuthorization", "c"}, 1, 4)
 		cs.Compat = pickS(rr, []string{"7", "7", "6", "8", "x"}, 1, 4)
-		cs.Transport = h.Pick(rr, []string{"local", "local", "bolt", "url", "default"})
+		cs.Transport = h.Pick(rr, []string{"local", "local", "bolt", "bolt", "url", "url", "default", "both"})
+		sizePool := []string{"0", "5", "100", "007", "9007199254740993", "18446744073709551615", "18446744073709551616", "-1", "1_0", "abc", "", "1e3", "+3", "3 "}
+		freqPool := []string{"0", "1", "0.5", "0.3", "1e-1", ".5", "x", "", "0x1p-2", "1_0", "2"}
+		if !rr.Chance(1, 4) { // mostly well-formed
+			sizePool, freqPool = sizePool[:6], freqPool[:6]
+		}
+		bucketPool := []string{"updates", "b", "", "my bucket"}
+		cs.TPath = rr.Chance(3, 4)
+		cs.TBucket, cs.TSize, cs.TFreq = pickS(rr, bucketPool, 1, 3), pickS(rr, sizePool, 1, 2), pickS(rr, freqPool, 1, 2)
+		cs.UKind = h.Pick(rr, []string{"local", "bolt-abs", "bolt-abs", "bolt-rel", "bolt-rel", "bolt-nopath", "unknown"})
+		cs.UBucket, cs.USize, cs.UFreq = pickS(rr, bucketPool, 1, 3), pickS(rr, sizePool, 1, 2), pickS(rr, freqPool, 1, 2)
 		for k := 0; k < 12; k++ {
 			cs.Order = append(cs.Order, rr.Intn(12))
 		}
+		dir := fmt.Sprintf("%s/c%d", dir, i) // fresh files for every case
+		os.MkdirAll(dir, 0o755)
+		os.Chdir(dir) // relative paths (bolt.db, u.db) land here
 		text := cs.caddyfile(dir)
 
 		// ---- implementation
@@ -363,6 +516,7 @@ func main() {
 			cancelCtx = cancel
 			if err = m.Provision(ctx); err != nil {
 				stage = "provision"
+				m.Cleanup() // as Caddy does for a module whose provisioning failed
 
 				return
 			}
@@ -397,7 +551,8 @@ func main() {
 			"pubKey="+cs.PubClass, "pubAlg="+optHex(cs.PubAlg), "subKey="+cs.SubClass, "subAlg="+optHex(cs.SubAlg),
 			"porigins="+originsWire(cs.POrigins), "corigins="+originsWire(cs.COrigins), "cookie="+optHex(cs.Cookie), "compat="+compat, "bad="+h.B(bad))
 		model := c.Driver.Ask1(line)
-		r.Evaluations++
+		tmodel := c.Driver.Ask1(cs.transportLine(dir))
+		r.Evaluations += 2
 		impl := "err"
 		rp := map[string]any{"family": "cfgcaddy", "case": cs, "caddyfile": text}
 		if err == nil {
@@ -409,9 +564,24 @@ func main() {
 			if o.HasSubscriberKey {
 				subAlg = h.Hex(probe(hub, false, map[string]*jws.Key{cs.SubClass: sk}))
 			}
+			if strings.Contains(pubAlg, "+") || strings.Contains(subAlg, "2b") {
+				r.Violate(h.Violation{Key: "C19:tokens-of-another-algorithm-accepted",
+					What: "the provisioned hub accepts tokens signed with more than the one configured algorithm (publisher: " + pubAlg + "):\n" + text, Replay: rp})
+			}
 			impl = fmt.Sprintf("ok anon=%s subs=%s wt=%d dt=%d hb=%d pubAlg=%s subAlg=%s porigins=%s corigins=%s cookie=%s compat7=%s",
 				h.B(o.Anonymous), h.B(o.Subscriptions), o.WriteTimeout.Milliseconds(), o.DispatchTimeout.Milliseconds(), o.Heartbeat.Milliseconds(),
 				h.Hex(pubAlg), subAlg, h.HexList(o.PublishOrigins), h.HexList(o.CORSOrigins), h.Hex(o.CookieName), h.B(o.Compat7))
+			switch t := mercure.VerifHubTransport(hub).(type) {
+			case *mercure.BoltTransport:
+				p, b, sz, fr := mercure.VerifBoltConfig(t)
+				impl += fmt.Sprintf(" | ok kind=bolt path=%s bucket=%s size=%d freq=%s", h.Hex(p), h.Hex(b), sz, h.Hex(strconv.FormatFloat(fr, 'g', -1, 64)))
+				r.Count("transport in effect: bolt")
+			case *mercure.LocalTransport:
+				impl += " | ok kind=local"
+				r.Count("transport in effect: local")
+			default:
+				impl += fmt.Sprintf(" | ok kind=%T", t)
+			}
 			if !o.HasPublisherKey || (!o.HasSubscriberKey && !o.Anonymous) {
 				r.Violate(h.Violation{Key: "C19:caddy-hub-started-without-required-key",
 					What: "the Caddy module provisioned a hub without a publisher key, or without a subscriber key although anonymous subscribers are not allowed:\n" + text, Replay: rp})
@@ -437,8 +607,13 @@ func main() {
 			}
 		}
 		mm := model
-		if strings.HasPrefix(mm, "err:") {
+		if strings.HasPrefix(mm, "err:") || strings.HasPrefix(tmodel, "err:") {
+			if strings.HasPrefix(tmodel, "err:") && !strings.HasPrefix(mm, "err:") {
+				r.Count("rejected by the model because of the transport: " + tmodel)
+			}
 			mm = "err"
+		} else {
+			mm += " | " + tmodel
 		}
 		if mm != impl {
 			r.Disagree(h.Disagreement{Class: "C19.provisionCaddy", Case: map[string]any{"case": cs, "caddyfile": text}, Model: model, Impl: impl + fmt.Sprintf(" (%s: %v)", stage, err)})
